@@ -1,8 +1,8 @@
 (** C03 — integration is linear in (density, theta0) and independent of the reference size.
     Only statements; every proof is [exact <lemma>]. *)
 From Coq Require Import Reals List Lra Lia.
-From Dadi Require Import Base.Num Base.NumR Model.Tridiag Model.Scheme
-  Proofs.TridiagProofs Proofs.SchemeProofs Proofs.Linearity Proofs.Rescale.
+From Dadi Require Import Base.Num Base.NumR Model.Tridiag Model.Scheme Model.NDSweep
+  Proofs.TridiagProofs Proofs.SchemeProofs Proofs.Linearity Proofs.Rescale Proofs.NDLines Proofs.NDSweepProofs Proofs.IntegrateLinear.
 Import ListNotations.
 Local Open Scope R_scope.
 
@@ -40,6 +40,38 @@ Proof. exact Vfunc_beta_rescale. Qed.
 Theorem C03_M_rescales : forall ms os gamma h c x,
   Mfunc (map (fun m => m / c) ms) os (gamma / c) h x = Mfunc ms os gamma h x / c.
 Proof. exact Mfunc_rescale. Qed.
+
+(** whole integrations: any number of populations and time steps, frozen / nomut flags; constant-parameter driver *)
+Theorem C03_integration_linear_const : forall shape grids,
+  (forall k, (k < length shape)%nat -> length (nth k grids []) = ax_len shape k /\ (2 <= length (nth k grids []))%nat) ->
+  forall pops tf dj al be, wf_pops shape pops ->
+  forall fuel th1 th2 t T (p1 p2 : list R), length p1 = length p2 ->
+  integrate_const fuel shape grids pops (al * th1 + be * th2) tf dj t T (lincomb al be p1 p2) =
+  olincomb al be (integrate_const fuel shape grids pops th1 tf dj t T p1) (integrate_const fuel shape grids pops th2 tf dj t T p2).
+Proof. exact integrate_const_linear. Qed.
+Print Assumptions C03_integration_linear_const.
+
+(** ... and the time-dependent driver with theta0(t) = a theta1(t) + b theta2(t) *)
+Theorem C03_integration_linear_timedep : forall shape grids,
+  (forall k, (k < length shape)%nat -> length (nth k grids []) = ax_len shape k /\ (2 <= length (nth k grids []))%nat) ->
+  forall popsf tf dj al be, (forall s, wf_pops shape (popsf s)) ->
+  forall fuel (thf1 thf2 : R -> R) t T (p1 p2 : list R), length p1 = length p2 ->
+  integrate_tdep fuel shape grids popsf (fun s => al * thf1 s + be * thf2 s) tf dj t T (lincomb al be p1 p2) =
+  olincomb al be (integrate_tdep fuel shape grids popsf thf1 tf dj t T p1) (integrate_tdep fuel shape grids popsf thf2 tf dj t T p2).
+Proof. exact integrate_tdep_linear. Qed.
+
+(** a whole d-dimensional sweep is unchanged when the swept population is re-expressed relative to another reference size *)
+Theorem C03_sweep_rescale_invariant_any_dimension : forall shape grids pops pops' k (p : @pop R) c dt dj phi,
+  0 < c -> nth_error pops k = Some p -> nth_error pops' k = Some (rescale_pop c p) ->
+  (2 <= length (nth k grids []))%nat ->
+  (forall o q, (o < ax_outer shape k)%nat -> (q < ax_inner shape k)%nat ->
+     nonzero (all_pivots (line_rows (nth k grids []) (Vfunc_beta (p_nu p) (p_beta p))
+                                    (Mfunc (p_ms p) (line_os shape grids k o q) (p_gamma p) (p_h p)) (p_nu p)
+                                    (all_eq n0 (line_os shape grids k o q)) (all_eq n1 (line_os shape grids k o q)) dt dj
+                                    (get_line shape k phi o q)))) ->
+  sweep shape grids pops' k (c * dt) dj phi = sweep shape grids pops k dt dj phi.
+Proof. exact sweep_rescale_invariant. Qed.
+Print Assumptions C03_sweep_rescale_invariant_any_dimension.
 
 Example C03_nonvacuous : lincomb 2 3 [1; 2] [10; 20] = [32; 64].
 Proof. unfold lincomb. cbn. f_equal; [lra | f_equal; lra]. Qed.
